@@ -187,8 +187,11 @@ Dropped(total) ==
 ----------------------------------------------------------------------------
 (* Memory accounting: runtime.rs allocate / deallocate / can_allocate_by *)
 
+\* A violation ends the evaluation: it travels to the host as an Err through every native function and
+\* user frame, and nothing on that path evaluates or allocates again (only releases follow).  So once a
+\* violation has been raised in the current host call, no allocation, allocation probe or call happens.
 Alloc(size, payload, total, limit) ==
-    /\ Active
+    /\ Active /\ doomed = "none"
     /\ lim.size # NoLimit /\ limit = lim.size
     /\ total = acct + size                   \* the implementation's running sum is the model's
     /\ size >= payload                       \* every value is accounted at least its payload
@@ -212,7 +215,7 @@ Dealloc(size, total) ==
     /\ UNCHANGED <<phase, lim, perm, calls, frames, acts, doomed, idleBase>>
 
 CanAlloc(req, total, limit) ==
-    /\ Active
+    /\ Active /\ doomed = "none"
     /\ lim.size # NoLimit /\ limit = lim.size
     /\ total = acct
     /\ IF acct + req > lim.size THEN Doom("AllocationLimitReached") ELSE UNCHANGED doomed
@@ -228,7 +231,7 @@ SetTop(f) == [acts EXCEPT ![Len(acts)] = f]
 
 UCall(t) ==
     /\ Active
-    /\ doomed # "Timeout"                    \* once the deadline has passed no further call begins
+    /\ doomed = "none"                       \* once a violation has been raised no further call begins
     /\ (acts # <<>> => TopAct.st = "body")   \* the caller is executing its body
     /\ acts' = Append(acts, [tmpl |-> t, rec |-> 0, fh |-> Len(frames),
                              st |-> IF lim.calls # NoLimit THEN "inc" ELSE "time"])
